@@ -29,6 +29,9 @@ ZOO = {
     "etac_ll_hel": ("etac_ll_hel", ""),
     "pipi2_hel": ("jpsi_pipi_2body_hel", ""),
     "gpipi_hel": ("jpsi_gpipi_hel", ""),
+    # scalar_initial_state_mass=True, no alignment, default dynamics: the parent mass m_012 is a
+    # parameter that occurs ONLY in parameter_defaults
+    "gpipi_hel_sism": ("jpsi_gpipi_hel", "sism"),
     "gpipi_hel_bw": ("jpsi_gpipi_hel", "bw"),
     "gpipi_can_bw": ("jpsi_gpipi_can", "bw"),
     "d0kkk_hel_bw": ("d0_kkk_hel", "bw"),
@@ -43,7 +46,7 @@ ZOO = {
     "ppbar_can": ("jpsi_ppbar_can", ""),
     "gkk_hel": ("jpsi_gkk_hel", "bw"),
 }
-QUICK_ZOO = ["etac_ll_hel", "pipi2_hel", "gpipi_hel", "gpipi_hel_bw", "gpipi_can_bw", "d0kkk_hel_bw",
+QUICK_ZOO = ["etac_ll_hel", "pipi2_hel", "gpipi_hel", "gpipi_hel_sism", "gpipi_hel_bw", "gpipi_can_bw", "d0kkk_hel_bw",
              "d0kkk_hel_dpd", "d0kkk_hel_axis", "psi2s_hel_bw"]
 
 _MODELS: dict = {}
@@ -62,6 +65,8 @@ def build(name: str):
         builder.config.spin_alignment = DalitzPlotDecomposition(reference_subsystem=1)
         builder.config.scalar_initial_state_mass = True
         builder.config.stable_final_state_ids = [1, 2, 3]
+    if "sism" in flags:
+        builder.config.scalar_initial_state_mass = True
     if "axis" in flags:
         builder.config.spin_alignment = AxisAngleAlignment()
     if "bw" in flags:
@@ -329,6 +334,7 @@ def collected_symbols(m) -> set:
     s = set(m.expression.free_symbols) | set(m.kinematic_variables)
     for v in m.kinematic_variables.values():
         s |= v.free_symbols
+    s |= {p for p in m.parameter_defaults if isinstance(p, sp.Symbol)}
     return s
 
 
@@ -516,3 +522,36 @@ def independence(cur, nxt, pairs, pass_as, rng):
         finally:
             pd[key] = old
     return fails
+
+
+# ---------------------------------------------------------------- fixed regression cases
+FLOAT_LIKE = ["inf", "nan", "Infinity", "1e5", "-3"]
+
+
+def fixed_cases():
+    """Cases run on every check, whatever the seed:
+    * a parameter that occurs only in parameter_defaults (m_012 of gpipi_hel_sism) is renamed
+      (fixed in /repo by 27f526d; signature parameters_not_rekeyed if it comes back);
+    * parameters and kinematic variables renamed to names that float() parses or that look
+      numeric (fixed by 649cd37; signature rename_to_float_like_name_raises on an exception)."""
+    name = "gpipi_hel_sism"
+    m = build(name)
+    only = [p for p in m.parameter_defaults
+            if isinstance(p, sp.Symbol) and p not in m.expression.free_symbols and p not in m.kinematic_variables]
+    par = [p for p in m.parameter_defaults if p in m.expression.free_symbols][0].name
+    kin = "m_12"
+    cases = []
+    for p in only[:1]:
+        cases.append({"model": name, "numeric": True, "rng": 1, "steps": [
+            {"kind": "par_only", "pairs": [[p.name, "M_{parent}"]], "pass_as": "dict"},
+            {"kind": "par_only", "pairs": [["M_{parent}", par], [par, "M_{parent}"]], "pass_as": "dict"}]})
+        cases.append({"model": name, "numeric": True, "rng": 2, "steps": [
+            {"kind": "par_only", "pairs": [[kin, "q"], [p.name, "Mp"], ["nope", "x"]], "pass_as": "pairs"}]})
+    for i, t in enumerate(FLOAT_LIKE):
+        cases.append({"model": name, "numeric": True, "rng": 10 + i, "exc_signature": "rename_to_float_like_name_raises",
+                      "steps": [{"kind": "float_like", "pairs": [[par, t]], "pass_as": "dict"},
+                                {"kind": "float_like", "pairs": [[t, "w_" + str(i)], ["theta_0", t]], "pass_as": "dict"}]})
+        cases.append({"model": name, "numeric": True, "rng": 20 + i, "exc_signature": "rename_to_float_like_name_raises",
+                      "steps": [{"kind": "float_like", "pairs": [[kin, t]], "pass_as": "dict"},
+                                {"kind": "float_like", "pairs": [["phi_0", FLOAT_LIKE[(i + 1) % 5]]], "pass_as": "dict"}]})
+    return cases
